@@ -344,7 +344,7 @@ impl Ctx {
                 *n += 1;
                 let mut k = rep.key.clone();
                 if k.len() > 1500 {
-                    k.truncate(1500);
+                    crate::sut::truncate_chars(&mut k, 1500);
                     k.push_str("…");
                 }
                 st.samples.push(json!({"sub": sub, "case": k, "observed": rep.note,
